@@ -86,6 +86,11 @@ def tokenize(
                     yield token
                     token = Token(source=formula)
             elif not quote_context:
+                if char == "`":
+                    raise exc_for_token(
+                        Token(source=formula, source_start=i - 1, source_end=i),
+                        "Back-quoted variable names must not be empty.",
+                    )
                 # Empty quotes: discard the (empty) token, which otherwise
                 # passes its kind and source position on to the next token.
                 token = Token(source=formula)
